@@ -92,7 +92,9 @@ func (s *Server) DidChange(ctx context.Context, params *lsp.DidChangeTextDocumen
 		return nil
 	}
 	filename := docName(params.TextDocument.URI)
-	content := params.ContentChanges[0].Text
+	// We ask for full document syncs: every change carries the whole document and
+	// the last one is the current state.
+	content := params.ContentChanges[len(params.ContentChanges)-1].Text
 	s.docs[filename] = &document{
 		version: uint32(params.TextDocument.Version),
 		content: content,
